@@ -12,34 +12,35 @@ import (
 
 // Profile steers the distribution of one campaign.
 type Profile struct {
-	Name        string
-	GenericPct  int // % of interfaces that are generic
-	MinDeps     int
-	MaxDeps     int
-	StdPct      int  // % chance that a named-type draw picks a std package
-	Conflict    bool // bias dependency paths towards colliding names
-	AdvNames    bool // adversarial parameter name pools
-	MaxIfaces   int
-	MaxMethods  int
-	MaxParams   int
-	MaxResults  int
-	MaxDepth    int
-	EmbedPct    int
-	AliasPct    int  // % chance a source import gets an alias
-	DestOther   int  // % other-package destination
-	DestTest    int  // % <src>_test destination
-	DestSame    int  // % explicit -pkg <src name>
-	OutFilePct  int  // % of cases using -out instead of stdout
-	ExecSafe    bool // harness X: shapes the reflective driver can build values for
-	InPlaceOnly bool
-	FmtDefault  bool   // only the default formatter
-	MultiArgPct int    // % of cases with >1 interface argument
-	UnnamedPct  int    // % of signatures with unnamed parameters
-	GopathPct   int    // % of worlds in GOPATH+vendor layout
-	ModPath     string // module-relative import path prefix of the world (default example.com/w, own go.mod)
-	ShadowPct   int    // % of signatures in which earlier parameters are named like the packages a later parameter type mentions
-	Evolve      bool   // also render a second version of the source (first requested literal interface gains a method)
-	MultiRefPct int    // % bias towards dependency interfaces whose one method type mentions several same-named packages
+	Name          string
+	GenericPct    int // % of interfaces that are generic
+	MinDeps       int
+	MaxDeps       int
+	StdPct        int  // % chance that a named-type draw picks a std package
+	Conflict      bool // bias dependency paths towards colliding names
+	AdvNames      bool // adversarial parameter name pools
+	MaxIfaces     int
+	MaxMethods    int
+	MaxParams     int
+	MaxResults    int
+	MaxDepth      int
+	EmbedPct      int
+	AliasPct      int  // % chance a source import gets an alias
+	DestOther     int  // % other-package destination
+	DestTest      int  // % <src>_test destination
+	DestSame      int  // % explicit -pkg <src name>
+	OutFilePct    int  // % of cases using -out instead of stdout
+	ExecSafe      bool // harness X: shapes the reflective driver can build values for
+	InPlaceOnly   bool
+	FmtDefault    bool   // only the default formatter
+	MultiArgPct   int    // % of cases with >1 interface argument
+	UnnamedPct    int    // % of signatures with unnamed parameters
+	GopathPct     int    // % of worlds in GOPATH+vendor layout
+	ModPath       string // module-relative import path prefix of the world (default example.com/w, own go.mod)
+	UniqueAliases bool   // never use one alias for two different paths (known finding F-K, harness F)
+	ShadowPct     int    // % of signatures in which earlier parameters are named like the packages a later parameter type mentions
+	Evolve        bool   // also render a second version of the source (first requested literal interface gains a method)
+	MultiRefPct   int    // % bias towards dependency interfaces whose one method type mentions several same-named packages
 }
 
 func DefaultProfile() Profile {
@@ -1406,7 +1407,29 @@ func (g *G) assignFiles() {
 			if q == "" {
 				q = p.Name
 			}
-			for tries := 0; usedQ[q] || g.declNames[q] || tpNames[q] || IsKeyword(q) || Predeclared[q] || q == "_"; tries++ {
+			aliasTaken := func(a string) bool {
+				if !g.P.UniqueAliases || a == "" {
+					return false
+				}
+				for op, oa := range globalAlias {
+					if op != p && oa == a {
+						return true
+					}
+				}
+				// the plain name of another imported package counts as well
+				for _, f2 := range g.files {
+					for _, op := range f2.order {
+						if op != p && op.Name == a {
+							return true
+						}
+					}
+				}
+				return false
+			}
+			if aliasTaken(alias) {
+				g.Excl["F-K"]++
+			}
+			for tries := 0; usedQ[q] || g.declNames[q] || tpNames[q] || IsKeyword(q) || Predeclared[q] || q == "_" || aliasTaken(alias); tries++ {
 				alias = fmt.Sprintf("%s%d", g.Pick(aliasPool), tries)
 				q = alias
 			}
